@@ -119,14 +119,14 @@ fn make(family: &str, mode: &str, bs: usize, w: usize, key: &[u8], iv: &[u8]) ->
         ("block", "ofb-dec") => matrix_all!(bs, w, C => BlockObj::<OfbDec<C>>::new(key, iv)),
         ("buf", "cfbbuf-enc") => matrix_all!(bs, w, C => BufObj::<C, true>::new(key, iv)),
         ("buf", "cfbbuf-dec") => matrix_all!(bs, w, C => BufObj::<C, false>::new(key, iv)),
-        ("stream", "ctr32be") => matrix_div4!(bs, w, C => StreamObj::<ctr::CtrCore<C, fl::Ctr32BE>>::new(key, iv)),
-        ("stream", "ctr32le") => matrix_div4!(bs, w, C => StreamObj::<ctr::CtrCore<C, fl::Ctr32LE>>::new(key, iv)),
-        ("stream", "ctr64be") => matrix_div8!(bs, w, C => StreamObj::<ctr::CtrCore<C, fl::Ctr64BE>>::new(key, iv)),
-        ("stream", "ctr64le") => matrix_div8!(bs, w, C => StreamObj::<ctr::CtrCore<C, fl::Ctr64LE>>::new(key, iv)),
-        ("stream", "ctr128be") => matrix_div16!(bs, w, C => StreamObj::<ctr::CtrCore<C, fl::Ctr128BE>>::new(key, iv)),
-        ("stream", "ctr128le") => matrix_div16!(bs, w, C => StreamObj::<ctr::CtrCore<C, fl::Ctr128LE>>::new(key, iv)),
-        ("stream", "ofb") => matrix_all!(bs, w, C => StreamObj::<ofb::OfbCore<C>>::new(key, iv)),
-        ("stream", "belt") => matrix_16!(bs, w, C => StreamObj::<belt_ctr::BeltCtrCore<C>>::new(key, iv)),
+        ("stream", "ctr32be") => matrix_div4!(bs, w, C => StreamObj::<ctr::CtrCore<C, fl::Ctr32BE>>::new_alias(key, iv, alias_ks!(ctr::Ctr32BE<C>))),
+        ("stream", "ctr32le") => matrix_div4!(bs, w, C => StreamObj::<ctr::CtrCore<C, fl::Ctr32LE>>::new_alias(key, iv, alias_ks!(ctr::Ctr32LE<C>))),
+        ("stream", "ctr64be") => matrix_div8!(bs, w, C => StreamObj::<ctr::CtrCore<C, fl::Ctr64BE>>::new_alias(key, iv, alias_ks!(ctr::Ctr64BE<C>))),
+        ("stream", "ctr64le") => matrix_div8!(bs, w, C => StreamObj::<ctr::CtrCore<C, fl::Ctr64LE>>::new_alias(key, iv, alias_ks!(ctr::Ctr64LE<C>))),
+        ("stream", "ctr128be") => matrix_div16!(bs, w, C => StreamObj::<ctr::CtrCore<C, fl::Ctr128BE>>::new_alias(key, iv, alias_ks!(ctr::Ctr128BE<C>))),
+        ("stream", "ctr128le") => matrix_div16!(bs, w, C => StreamObj::<ctr::CtrCore<C, fl::Ctr128LE>>::new_alias(key, iv, alias_ks!(ctr::Ctr128LE<C>))),
+        ("stream", "ofb") => matrix_all!(bs, w, C => StreamObj::<ofb::OfbCore<C>>::new_alias(key, iv, alias_ks!(ofb::Ofb<C>))),
+        ("stream", "belt") => matrix_16!(bs, w, C => StreamObj::<belt_ctr::BeltCtrCore<C>>::new_alias(key, iv, alias_ks!(belt_ctr::BeltCtr<C>))),
         ("core", "ctr32be") => matrix_div4!(bs, w, C => CoreObj::<ctr::CtrCore<C, fl::Ctr32BE>>::new(key, iv)),
         ("core", "ctr32le") => matrix_div4!(bs, w, C => CoreObj::<ctr::CtrCore<C, fl::Ctr32LE>>::new(key, iv)),
         ("core", "ctr64be") => matrix_div8!(bs, w, C => CoreObj::<ctr::CtrCore<C, fl::Ctr64BE>>::new(key, iv)),
